@@ -544,4 +544,448 @@ Proof.
     + right. split; [exact Hd1|]. split; [exact Hd2|reflexivity].
 Qed.
 
+(* ---------- the distribution ---------- *)
+
+Lemma ndist_compat : forall p r r', req r r' = true -> ndist p r == ndist p r'.
+Proof.
+  intros p r r' H. unfold MetricSpec.ndist, MetricSpec.rwt.
+  rewrite (filter_ext_in _ (fun b => req r (rke b)) (fun b => req r' (rke b))); [reflexivity|].
+  intros b _. apply (ranking_eqb_compat_l cand ceqb ceqb_spec). exact H.
+Qed.
+
+Lemma cast_in_dec : forall p r, {cast_in p r} + {forall b, In b (ballots p) -> req r (rke b) = false}.
+Proof.
+  intros p r. destruct (existsb (fun b => req r (rke b)) (ballots p)) eqn:E.
+  - left. apply existsb_exists in E. exact E.
+  - right. intros b Hb. destruct (req r (rke b)) eqn:Er; [|reflexivity].
+    assert (H : existsb (fun b => req r (rke b)) (ballots p) = true).
+    { apply existsb_exists. exists b. split; assumption. }
+    congruence.
+Qed.
+
+Lemma ndist_not_cast : forall p r,
+  (forall b, In b (ballots p) -> req r (rke b) = false) -> ndist p r == 0.
+Proof.
+  intros p r H. unfold MetricSpec.ndist, MetricSpec.rwt.
+  rewrite (Lib_sets.filter_all_false _ (ballots p)).
+  - cbn [map]. rewrite qsum_nil. unfold Qdiv. ring.
+  - exact H.
+Qed.
+
+Lemma cast_covered : forall ks p r, covers ks p -> cast_in p r ->
+  exists k, In k ks /\ req r k = true.
+Proof.
+  intros ks p r Hc [b [Hb Hr]]. destruct (Hc b Hb) as [k [Hk Hkr]]. exists k. split; [exact Hk|].
+  apply req_trans with (rke b); [exact Hr|]. rewrite req_sym. exact Hkr.
+Qed.
+
+Lemma absdiff_compat : forall p1 p2 r r', req r r' = true -> absdiff p1 p2 r == absdiff p1 p2 r'.
+Proof.
+  intros p1 p2 r r' H. unfold MetricSpec.absdiff.
+  rewrite (ndist_compat p1 r r' H), (ndist_compat p2 r r' H). reflexivity.
+Qed.
+
+Lemma absdiff_nonneg : forall p1 p2 r, 0 <= absdiff p1 p2 r.
+Proof. intros p1 p2 r. apply Qabs_nonneg. Qed.
+
+Lemma absdiff_sym : forall p1 p2 r, absdiff p1 p2 r == absdiff p2 p1 r.
+Proof. intros p1 p2 r. unfold MetricSpec.absdiff. rewrite Qabs_Qminus. reflexivity. Qed.
+
+Lemma Qabs_zero_inv : forall x, Qabs x == 0 -> x == 0.
+Proof.
+  intros x H. pose proof (Qle_Qabs x) as H1. pose proof (Qle_Qabs (- x)) as H2.
+  rewrite Qabs_opp in H2. lra.
+Qed.
+
+Lemma absdiff_zero_iff : forall p1 p2 r, absdiff p1 p2 r == 0 <-> ndist p1 r == ndist p2 r.
+Proof.
+  intros p1 p2 r. unfold MetricSpec.absdiff. split.
+  - intros H. apply Qabs_zero_inv in H. lra.
+  - intros H. rewrite H. setoid_replace (ndist p2 r - ndist p2 r) with 0 by ring. reflexivity.
+Qed.
+
+Lemma absdiff_outside : forall p1 p2 r,
+  (forall b, In b (ballots p1 ++ ballots p2) -> req r (rke b) = false) -> absdiff p1 p2 r == 0.
+Proof.
+  intros p1 p2 r H. apply absdiff_zero_iff. rewrite !ndist_not_cast; [reflexivity| |].
+  - intros b Hb. apply H. apply in_or_app. right. exact Hb.
+  - intros b Hb. apply H. apply in_or_app. left. exact Hb.
+Qed.
+
+Lemma absdiff_nonzero_cast : forall p1 p2 r,
+  ~ absdiff p1 p2 r == 0 -> cast_in p1 r \/ cast_in p2 r.
+Proof.
+  intros p1 p2 r H. destruct (cast_in_dec p1 r) as [H1|H1]; [left; exact H1|].
+  destruct (cast_in_dec p2 r) as [H2|H2]; [right; exact H2|].
+  exfalso. apply H. apply absdiff_zero_iff. rewrite (ndist_not_cast p1 r H1), (ndist_not_cast p2 r H2).
+  reflexivity.
+Qed.
+
+Lemma absdiff_triangle : forall p1 p2 p3 r,
+  absdiff p1 p3 r <= absdiff p1 p2 r + absdiff p2 p3 r.
+Proof.
+  intros p1 p2 p3 r. unfold MetricSpec.absdiff.
+  setoid_replace (ndist p1 r - ndist p3 r)
+    with ((ndist p1 r - ndist p2 r) + (ndist p2 r - ndist p3 r)) by ring.
+  apply Qabs_triangle.
+Qed.
+
+Lemma absdiff_ext_l : forall p p' q r,
+  ndist p r == ndist p' r -> absdiff p q r == absdiff p' q r.
+Proof. intros p p' q r H. unfold MetricSpec.absdiff. rewrite H. reflexivity. Qed.
+
+(* ---------- sums of powers over key lists ---------- *)
+
+Definition psum (p1 p2 : profile) (n : nat) (ks : list ranking) : Q :=
+  qsum (map (fun r => Qpow (absdiff p1 p2 r) n) ks).
+
+Lemma lp_pow_sum_psum : forall p1 p2 n ks, lp_pow_sum p1 p2 n ks == psum p1 p2 n ks.
+Proof.
+  intros p1 p2 n ks. unfold MetricSpec.lp_pow_sum, psum. apply qsum_map_ext_in.
+  intros r _. symmetry. apply Qpow_Qpower.
+Qed.
+
+Lemma psum_indep : forall p1 p2 n ks ks', (1 <= n)%nat ->
+  distinct_keys ks -> distinct_keys ks' ->
+  covers ks p1 -> covers ks p2 -> covers ks' p1 -> covers ks' p2 ->
+  psum p1 p2 n ks == psum p1 p2 n ks'.
+Proof.
+  intros p1 p2 n ks ks' Hn Hd Hd' H1 H2 H1' H2'. unfold psum.
+  assert (Hcov : forall K, covers K p1 -> covers K p2 -> forall a,
+            ~ Qpow (absdiff p1 p2 a) n == 0 -> exists b, In b K /\ req a b = true).
+  { intros K HK1 HK2 a Hnz.
+    assert (Ha : ~ absdiff p1 p2 a == 0).
+    { intros Hz. apply Hnz. apply Qpow_zero; assumption. }
+    destruct (absdiff_nonzero_cast p1 p2 a Ha) as [Hc|Hc].
+    - apply (cast_covered K p1 a HK1 Hc).
+    - apply (cast_covered K p2 a HK2 Hc). }
+  apply (sum_indep ranking req req_sym req_trans).
+  - intros a b Hab. rewrite (absdiff_compat p1 p2 a b Hab). reflexivity.
+  - exact Hd.
+  - exact Hd'.
+  - intros a _. apply Hcov; assumption.
+  - intros b _. apply Hcov; assumption.
+Qed.
+
+Lemma lp_pow_sum_indep : forall p1 p2 n ks ks', (1 <= n)%nat ->
+  distinct_keys ks -> distinct_keys ks' ->
+  covers ks p1 -> covers ks p2 -> covers ks' p1 -> covers ks' p2 ->
+  lp_pow_sum p1 p2 n ks == lp_pow_sum p1 p2 n ks'.
+Proof.
+  intros p1 p2 n ks ks' Hn Hd Hd' H1 H2 H1' H2'. rewrite !lp_pow_sum_psum.
+  apply psum_indep; assumption.
+Qed.
+
+Lemma psum_sym : forall p1 p2 n ks, psum p1 p2 n ks == psum p2 p1 n ks.
+Proof.
+  intros p1 p2 n ks. unfold psum. apply qsum_map_ext_in. intros r _.
+  rewrite (absdiff_sym p1 p2 r). reflexivity.
+Qed.
+
+Lemma psum_ext_l : forall p p' q n ks, (forall r, ndist p r == ndist p' r) ->
+  psum p q n ks == psum p' q n ks.
+Proof.
+  intros p p' q n ks H. unfold psum. apply qsum_map_ext_in. intros r _.
+  rewrite (absdiff_ext_l p p' q r (H r)). reflexivity.
+Qed.
+
+(* a duplicate-free key list covering any finite family of profiles *)
+Lemma common_keys : forall ps : list profile,
+  exists K, distinct_keys K /\ forall p, In p ps -> covers K p.
+Proof.
+  intros ps. exists (nub ranking req (map rke (concat (map ballots ps)))). split.
+  - apply nub_distinct.
+  - intros p Hp b Hb.
+    apply (nub_covers ranking req req_refl req_trans). apply in_map.
+    apply in_concat. exists (ballots p). split; [apply in_map; exact Hp|exact Hb].
+Qed.
+
+(* ---------- lp_sum ---------- *)
+
+Lemma lp_sum_std : forall p1 p2 n s, lp_sum p1 p2 n = inl s ->
+  (1 <= n)%nat /\ ~ degenerate p1 /\ ~ degenerate p2 /\ s == psum p1 p2 n (std_keys p1 p2).
+Proof.
+  intros p1 p2 n s H. unfold Metrics.lp_sum in H.
+  destruct (diff_vector_cases p1 p2) as [[_ E]|[Hd1 [Hd2 E]]]; rewrite E in H; unfold rbind in H.
+  - discriminate.
+  - destruct n as [|n]; [discriminate|]. injection H as <-.
+    split; [lia|]. split; [exact Hd1|]. split; [exact Hd2|].
+    rewrite map_map. unfold psum. apply qsum_map_ext_in. intros r _.
+    rewrite (std_diff_absdiff p1 p2 r). reflexivity.
+Qed.
+
+Lemma lp_sum_ok : forall p1 p2 n, ~ degenerate p1 -> ~ degenerate p2 -> (1 <= n)%nat ->
+  exists s, lp_sum p1 p2 n = inl s.
+Proof.
+  intros p1 p2 n Hd1 Hd2 Hn. unfold Metrics.lp_sum.
+  destruct (diff_vector_cases p1 p2) as [[[Hd|Hd] _]|[_ [_ E]]]; [contradiction|contradiction|].
+  rewrite E. unfold rbind. destruct n as [|n]; [lia|]. eexists. reflexivity.
+Qed.
+
+Lemma lp_sum_err : forall p1 p2 n e,
+  lp_sum p1 p2 n = inr e <-> e = EZeroDiv /\ (degenerate p1 \/ degenerate p2 \/ n = 0%nat).
+Proof.
+  intros p1 p2 n e. unfold Metrics.lp_sum.
+  destruct (diff_vector_cases p1 p2) as [[Hd E]|[Hd1 [Hd2 E]]]; rewrite E; unfold rbind.
+  - split.
+    + intros H. injection H as <-. split; [reflexivity|]. destruct Hd as [Hd|Hd]; auto.
+    + intros [-> _]. reflexivity.
+  - destruct n as [|n].
+    + split.
+      * intros H. injection H as <-. split; [reflexivity|]. right. right. reflexivity.
+      * intros [-> _]. reflexivity.
+    + split; [discriminate|]. intros [_ [H|[H|H]]]; [contradiction|contradiction|discriminate].
+Qed.
+
+Lemma lp_sum_any_keys : forall p1 p2 n s, lp_sum p1 p2 n = inl s ->
+  forall ks, distinct_keys ks -> covers ks p1 -> covers ks p2 -> s == psum p1 p2 n ks.
+Proof.
+  intros p1 p2 n s H ks Hd H1 H2. destruct (lp_sum_std p1 p2 n s H) as [Hn [_ [_ Hs]]].
+  rewrite Hs. apply psum_indep; try assumption.
+  - apply std_keys_distinct.
+  - apply std_keys_covers_l.
+  - apply std_keys_covers_r.
+Qed.
+
+Lemma pos_not_degenerate : forall p, 0 < total_wt (ballots p) -> ~ degenerate p.
+Proof. intros p H [_ Hz]. rewrite Hz in H. apply (Qlt_irrefl 0). exact H. Qed.
+
+Lemma pos_has_ballot : forall p, 0 < total_wt (ballots p) -> exists b, In b (ballots p).
+Proof.
+  intros p H. destruct (ballots p) as [|b bs] eqn:E.
+  - unfold Core.total_wt in H. cbn [map] in H. rewrite qsum_nil in H. exfalso. apply (Qlt_irrefl 0). exact H.
+  - exists b. left. reflexivity.
+Qed.
+
+(* L1 *)
+Theorem lp_def : forall p1 p2 n s, lp_sum p1 p2 n = inl s ->
+  (1 <= n)%nat /\
+  (exists keys, distinct_keys keys /\ covers keys p1 /\ covers keys p2 /\
+                (forall k, In k keys -> cast_in p1 k \/ cast_in p2 k)) /\
+  (forall keys, distinct_keys keys -> covers keys p1 -> covers keys p2 ->
+                s == lp_pow_sum p1 p2 n keys).
+Proof.
+  intros p1 p2 n s H. split; [apply (lp_sum_std p1 p2 n s H)|]. split.
+  - exists (std_keys p1 p2). split; [apply std_keys_distinct|].
+    split; [apply std_keys_covers_l|]. split; [apply std_keys_covers_r|apply std_keys_cast].
+  - intros keys Hd H1 H2. rewrite lp_pow_sum_psum. apply (lp_sum_any_keys p1 p2 n s H); assumption.
+Qed.
+
+(* ---------- linf ---------- *)
+
+Lemma std_keys_nil_iff : forall p1 p2, std_keys p1 p2 = [] <-> ballots p1 = [] /\ ballots p2 = [].
+Proof.
+  intros p1 p2. split.
+  - intros H. split.
+    + destruct (ballots p1) as [|b bs] eqn:E; [reflexivity|].
+      destruct (std_keys_covers_l p1 p2 b) as [k [Hk _]]; [rewrite E; left; reflexivity|].
+      rewrite H in Hk. destruct Hk.
+    + destruct (ballots p2) as [|b bs] eqn:E; [reflexivity|].
+      destruct (std_keys_covers_r p1 p2 b) as [k [Hk _]]; [rewrite E; left; reflexivity|].
+      rewrite H in Hk. destruct Hk.
+  - intros [H1 H2]. unfold std_keys, std_dict. rewrite H1, H2. reflexivity.
+Qed.
+
+Lemma is_max_transfer : forall p1 p2 m ks,
+  is_max m (map (std_diff p1 p2) (std_keys p1 p2)) ->
+  covers ks p1 -> covers ks p2 -> is_max m (map (absdiff p1 p2) ks).
+Proof.
+  intros p1 p2 m ks [[x [Hx Hmx]] Hub] H1 H2.
+  apply in_map_iff in Hx. destruct Hx as [k0 [<- Hk0]].
+  rewrite std_diff_absdiff in Hmx. split.
+  - assert (Hc : exists k, In k ks /\ req k0 k = true).
+    { destruct (std_keys_cast p1 p2 k0 Hk0) as [Hc|Hc];
+        [apply (cast_covered ks p1 k0 H1 Hc)|apply (cast_covered ks p2 k0 H2 Hc)]. }
+    destruct Hc as [k [Hk Hkk]]. exists (absdiff p1 p2 k). split; [apply in_map; exact Hk|].
+    rewrite Hmx. apply absdiff_compat. exact Hkk.
+  - intros y Hy. apply in_map_iff in Hy. destruct Hy as [k [<- Hk]].
+    destruct (Qeq_dec (absdiff p1 p2 k) 0) as [Hz|Hnz].
+    + rewrite Hz, Hmx. apply absdiff_nonneg.
+    + assert (Hc : exists k', In k' (std_keys p1 p2) /\ req k k' = true).
+      { destruct (absdiff_nonzero_cast p1 p2 k Hnz) as [Hc|Hc].
+        - apply (cast_covered _ p1 k (std_keys_covers_l p1 p2) Hc).
+        - apply (cast_covered _ p2 k (std_keys_covers_r p1 p2) Hc). }
+      destruct Hc as [k' [Hk' Hkk']]. rewrite (absdiff_compat p1 p2 k k' Hkk').
+      rewrite <- std_diff_absdiff. apply Hub. apply in_map. exact Hk'.
+Qed.
+
+Lemma linf_std : forall p1 p2 m, linf p1 p2 = inl m ->
+  ~ degenerate p1 /\ ~ degenerate p2 /\ is_max m (map (std_diff p1 p2) (std_keys p1 p2)).
+Proof.
+  intros p1 p2 m H. unfold Metrics.linf in H.
+  destruct (diff_vector_cases p1 p2) as [[_ E]|[Hd1 [Hd2 E]]]; rewrite E in H; unfold rbind in H.
+  - discriminate.
+  - split; [exact Hd1|]. split; [exact Hd2|].
+    destruct (map (std_diff p1 p2) (std_keys p1 p2)) as [|x l]; [discriminate|].
+    injection H as <-. apply fold_Qmax'_is_max.
+Qed.
+
+Lemma linf_ok : forall p1 p2, ~ degenerate p1 -> ~ degenerate p2 ->
+  (ballots p1 <> [] \/ ballots p2 <> []) -> exists m, linf p1 p2 = inl m.
+Proof.
+  intros p1 p2 Hd1 Hd2 Hne. unfold Metrics.linf.
+  destruct (diff_vector_cases p1 p2) as [[[Hd|Hd] _]|[_ [_ E]]]; [contradiction|contradiction|].
+  rewrite E. unfold rbind. destruct (std_keys p1 p2) as [|k ks] eqn:Ek.
+  - apply std_keys_nil_iff in Ek. destruct Ek as [E1 E2]. destruct Hne as [Hne|Hne]; contradiction.
+  - cbn [map]. eexists. reflexivity.
+Qed.
+
+Lemma linf_err : forall p1 p2 e,
+  linf p1 p2 = inr e <->
+  (e = EZeroDiv /\ (degenerate p1 \/ degenerate p2)) \/
+  (e = EValue /\ ballots p1 = [] /\ ballots p2 = []).
+Proof.
+  intros p1 p2 e. unfold Metrics.linf.
+  destruct (diff_vector_cases p1 p2) as [[Hd E]|[Hd1 [Hd2 E]]]; rewrite E; unfold rbind.
+  - split.
+    + intros H. injection H as <-. left. split; [reflexivity|exact Hd].
+    + intros [[-> _]|[_ [H1 H2]]]; [reflexivity|].
+      exfalso. destruct Hd as [[Hne _]|[Hne _]]; contradiction.
+  - destruct (std_keys p1 p2) as [|k ks] eqn:Ek.
+    + apply std_keys_nil_iff in Ek. cbn [map]. split.
+      * intros H. injection H as <-. right. split; [reflexivity|exact Ek].
+      * intros [[_ [H|H]]|[-> _]]; [contradiction|contradiction|reflexivity].
+    + cbn [map]. split; [discriminate|].
+      intros [[_ [H|H]]|[_ H]]; [contradiction|contradiction|].
+      apply std_keys_nil_iff in H. congruence.
+Qed.
+
+(* L1, maximum *)
+Theorem linf_def : forall p1 p2 m, linf p1 p2 = inl m ->
+  (exists keys, distinct_keys keys /\ covers keys p1 /\ covers keys p2 /\
+                (forall k, In k keys -> cast_in p1 k \/ cast_in p2 k)) /\
+  (forall keys, covers keys p1 -> covers keys p2 -> is_max m (map (absdiff p1 p2) keys)).
+Proof.
+  intros p1 p2 m H. split.
+  - exists (std_keys p1 p2). split; [apply std_keys_distinct|].
+    split; [apply std_keys_covers_l|]. split; [apply std_keys_covers_r|apply std_keys_cast].
+  - intros keys H1 H2. apply is_max_transfer; [|exact H1|exact H2]. apply (linf_std p1 p2 m H).
+Qed.
+
+Lemma is_max_ext : forall (A : Type) (f g : A -> Q) l m m',
+  (forall a, f a == g a) -> is_max m (map f l) -> is_max m' (map g l) -> m == m'.
+Proof.
+  intros A f g l m m' Hfg [[x [Hx Hmx]] Hub] [[y [Hy Hmy]] Hub'].
+  apply in_map_iff in Hx. destruct Hx as [a [<- Ha]].
+  apply in_map_iff in Hy. destruct Hy as [b [<- Hb]].
+  apply Qle_antisym.
+  - rewrite Hmx, (Hfg a). apply Hub'. apply in_map. exact Ha.
+  - rewrite Hmy, <- (Hfg b). apply Hub. apply in_map. exact Hb.
+Qed.
+
+(* ---------- L2: symmetry ---------- *)
+
+Theorem lp_symmetric : forall p1 p2 n,
+  match lp_sum p1 p2 n, lp_sum p2 p1 n with
+  | inl a, inl b => a == b
+  | inr e, inr e' => e = e'
+  | _, _ => False
+  end.
+Proof.
+  intros p1 p2 n.
+  destruct (lp_sum p1 p2 n) as [a|e] eqn:E1; destruct (lp_sum p2 p1 n) as [b|e'] eqn:E2.
+  - rewrite (lp_sum_any_keys p2 p1 n b E2 (std_keys p1 p2)).
+    + rewrite psum_sym. apply (lp_sum_std p1 p2 n a E1).
+    + apply std_keys_distinct.
+    + apply std_keys_covers_r.
+    + apply std_keys_covers_l.
+  - destruct (lp_sum_std p1 p2 n a E1) as [Hn [Hd1 [Hd2 _]]].
+    apply lp_sum_err in E2. destruct E2 as [_ [H|[H|H]]]; [contradiction|contradiction|lia].
+  - destruct (lp_sum_std p2 p1 n b E2) as [Hn [Hd1 [Hd2 _]]].
+    apply lp_sum_err in E1. destruct E1 as [_ [H|[H|H]]]; [contradiction|contradiction|lia].
+  - apply lp_sum_err in E1. apply lp_sum_err in E2. destruct E1 as [-> _]. destruct E2 as [-> _].
+    reflexivity.
+Qed.
+
+Theorem linf_symmetric : forall p1 p2,
+  match linf p1 p2, linf p2 p1 with
+  | inl a, inl b => a == b
+  | inr e, inr e' => e = e'
+  | _, _ => False
+  end.
+Proof.
+  intros p1 p2.
+  destruct (linf p1 p2) as [a|e] eqn:E1; destruct (linf p2 p1) as [b|e'] eqn:E2.
+  - destruct (linf_def p1 p2 a E1) as [_ Ha]. destruct (linf_def p2 p1 b E2) as [_ Hb].
+    apply (is_max_ext ranking (absdiff p1 p2) (absdiff p2 p1) (std_keys p1 p2)).
+    + intros r. apply absdiff_sym.
+    + apply Ha; [apply std_keys_covers_l|apply std_keys_covers_r].
+    + apply Hb; [apply std_keys_covers_r|apply std_keys_covers_l].
+  - destruct (linf_std p1 p2 a E1) as [Hd1 [Hd2 _]].
+    apply linf_err in E2. destruct E2 as [[_ [H|H]]|[_ [H2 H1]]]; [contradiction|contradiction|].
+    assert (Hk : std_keys p1 p2 = []) by (apply std_keys_nil_iff; split; assumption).
+    unfold Metrics.linf in E1.
+    destruct (diff_vector_cases p1 p2) as [[_ E]|[_ [_ E]]]; rewrite E in E1; unfold rbind in E1;
+      [discriminate|]. rewrite Hk in E1. discriminate.
+  - destruct (linf_std p2 p1 b E2) as [Hd1 [Hd2 _]].
+    apply linf_err in E1. destruct E1 as [[_ [H|H]]|[_ [H2 H1]]]; [contradiction|contradiction|].
+    assert (Hk : std_keys p2 p1 = []) by (apply std_keys_nil_iff; split; assumption).
+    unfold Metrics.linf in E2.
+    destruct (diff_vector_cases p2 p1) as [[_ E]|[_ [_ E]]]; rewrite E in E2; unfold rbind in E2;
+      [discriminate|]. rewrite Hk in E2. discriminate.
+  - apply linf_err in E1. apply linf_err in E2.
+    destruct E1 as [[-> H1]|[-> [H1 H1']]]; destruct E2 as [[-> H2]|[-> [H2 H2']]]; try reflexivity.
+    + exfalso. destruct H1 as [[Hne _]|[Hne _]]; contradiction.
+    + exfalso. destruct H2 as [[Hne _]|[Hne _]]; contradiction.
+Qed.
+
+(* ---------- L3: zero exactly for equal distributions ---------- *)
+
+Lemma psum_zero_iff : forall p1 p2 n ks, (1 <= n)%nat -> covers ks p1 -> covers ks p2 ->
+  (psum p1 p2 n ks == 0 <-> forall r, ndist p1 r == ndist p2 r).
+Proof.
+  intros p1 p2 n ks Hn H1 H2. split.
+  - intros Hs r. apply absdiff_zero_iff.
+    destruct (Qeq_dec (absdiff p1 p2 r) 0) as [Hz|Hnz]; [exact Hz|].
+    exfalso.
+    assert (Hc : exists k, In k ks /\ req r k = true).
+    { destruct (absdiff_nonzero_cast p1 p2 r Hnz) as [Hc|Hc];
+        [apply (cast_covered ks p1 r H1 Hc)|apply (cast_covered ks p2 r H2 Hc)]. }
+    destruct Hc as [k [Hk Hrk]]. apply Hnz. rewrite (absdiff_compat p1 p2 r k Hrk).
+    apply (Qpow_zero_inv n).
+    apply (qsum_nonneg_zero (map (fun r => Qpow (absdiff p1 p2 r) n) ks)).
+    + intros x Hx. apply in_map_iff in Hx. destruct Hx as [r' [<- _]].
+      apply Qpow_nonneg. apply absdiff_nonneg.
+    + exact Hs.
+    + apply (in_map (fun r => Qpow (absdiff p1 p2 r) n)). exact Hk.
+  - intros H. unfold psum. apply qsum_map_zero. intros r _. apply Qpow_zero; [exact Hn|].
+    apply absdiff_zero_iff. apply H.
+Qed.
+
+Theorem lp_zero_iff_same_distribution : forall p1 p2 n,
+  0 < total_wt (ballots p1) -> 0 < total_wt (ballots p2) -> (1 <= n)%nat ->
+  exists s, lp_sum p1 p2 n = inl s /\ (s == 0 <-> forall r, ndist p1 r == ndist p2 r).
+Proof.
+  intros p1 p2 n Hp1 Hp2 Hn.
+  destruct (lp_sum_ok p1 p2 n (pos_not_degenerate p1 Hp1) (pos_not_degenerate p2 Hp2) Hn) as [s Hs].
+  exists s. split; [exact Hs|].
+  destruct (lp_sum_std p1 p2 n s Hs) as [_ [_ [_ Heq]]]. rewrite Heq.
+  apply psum_zero_iff; [exact Hn|apply std_keys_covers_l|apply std_keys_covers_r].
+Qed.
+
+Theorem linf_zero_iff_same_distribution : forall p1 p2,
+  0 < total_wt (ballots p1) -> 0 < total_wt (ballots p2) ->
+  exists m, linf p1 p2 = inl m /\ (m == 0 <-> forall r, ndist p1 r == ndist p2 r).
+Proof.
+  intros p1 p2 Hp1 Hp2.
+  destruct (linf_ok p1 p2 (pos_not_degenerate p1 Hp1) (pos_not_degenerate p2 Hp2)) as [m Hm].
+  { left. destruct (pos_has_ballot p1 Hp1) as [b Hb]. intros E. rewrite E in Hb. destruct Hb. }
+  exists m. split; [exact Hm|].
+  destruct (linf_def p1 p2 m Hm) as [_ Hmax].
+  destruct (Hmax (std_keys p1 p2) (std_keys_covers_l p1 p2) (std_keys_covers_r p1 p2))
+    as [[x [Hx Hmx]] Hub].
+  apply in_map_iff in Hx. destruct Hx as [k0 [<- Hk0]].
+  rewrite <- (psum_zero_iff p1 p2 1 (std_keys p1 p2) (le_n 1)
+               (std_keys_covers_l p1 p2) (std_keys_covers_r p1 p2)).
+  split.
+  - intros Hz. unfold psum. apply qsum_map_zero. intros r Hr. rewrite Qpow_1.
+    apply Qle_antisym; [|apply absdiff_nonneg]. rewrite <- Hz. apply Hub. apply in_map. exact Hr.
+  - intros Hs. rewrite Hmx. rewrite <- (Qpow_1 (absdiff p1 p2 k0)).
+    apply (qsum_nonneg_zero (map (fun r => Qpow (absdiff p1 p2 r) 1) (std_keys p1 p2))).
+    + intros x Hx. apply in_map_iff in Hx. destruct Hx as [r' [<- _]].
+      apply Qpow_nonneg. apply absdiff_nonneg.
+    + exact Hs.
+    + apply (in_map (fun r => Qpow (absdiff p1 p2 r) 1)). exact Hk0.
+Qed.
+
 End WithCand.
